@@ -4,6 +4,7 @@ import (
 	"errors"
 	goio "io"
 	"os"
+	"sort"
 
 	"github.com/evolbioinfo/gotree/io"
 	"github.com/evolbioinfo/gotree/tree"
@@ -196,10 +197,16 @@ func writeNameMap(namemap map[string]string, outfile string) (err error) {
 	if f, err = openWriteFile(outfile); err != nil {
 		return
 	}
-	for old, new := range namemap {
+	// Sorted by old name, to have a reproducible output
+	oldnames := make([]string, 0, len(namemap))
+	for old := range namemap {
+		oldnames = append(oldnames, old)
+	}
+	sort.Strings(oldnames)
+	for _, old := range oldnames {
 		f.WriteString(old)
 		f.WriteString("\t")
-		f.WriteString(new)
+		f.WriteString(namemap[old])
 		f.WriteString("\n")
 	}
 	f.Close()
